@@ -124,6 +124,14 @@ func newMemUniverse(rng *RNG, large bool) *memUniverse {
 	docker := add("docker-child", "application/vnd.docker.distribution.manifest.v2+json", []byte(`{"schemaVersion":2,"mediaType":"application/vnd.docker.distribution.manifest.v2+json"}`))
 	opq := memManifest{"opaque", mtOpaque, []byte("not json at all")}
 	add("i-foreign", idx, ocispec.Index{MediaType: idx, Manifests: []ocispec.Descriptor{md(docker), md(m1), md(opq)}})
+	// an image with layers AND a subject that is present; bytes that are stored both as a blob and as a
+	// manifest (an artifact carries an image manifest's bytes as a layer) next to that image in one index
+	m1d := md(m1)
+	add("m4-layers-subject", img, ocispec.Manifest{MediaType: img, Config: bd(4), Layers: []ocispec.Descriptor{bd(1), bd(5)}, Subject: &m1d})
+	u.blobs = append(u.blobs, m1.data)
+	asLayer := descJSON("application/octet-stream", sha256Digest(m1.data), int64(len(m1.data)))
+	art := add("art-carrying-m1", img, ocispec.Manifest{MediaType: img, Config: bd(4), Layers: []ocispec.Descriptor{asLayer}})
+	add("i-shared-bytes", idx, ocispec.Index{MediaType: idx, Manifests: []ocispec.Descriptor{md(art), md(m1)}})
 	// media types with a parameter, or with upper-case letters: carried verbatim
 	add("opaque-param", "application/vnd.example.thing.v1+json; version=2", []byte(`{"thing":1}`))
 	add("opaque-upper", "application/vnd.Example.Thing.v1+json", []byte(`{"thing":2}`))
@@ -402,6 +410,7 @@ type trkRepo struct {
 	// everything that was at some point reachable from a tag (it must stay).
 	refsEver  map[string][]refTok
 	protected map[string]bool
+	followed  map[string]bool // manifests whose references have been taken into the protected set
 }
 
 // protect adds everything currently reachable from a tag to the protected set,
@@ -411,25 +420,35 @@ func (r *trkRepo) protect() {
 	if r.protected == nil {
 		r.protected = map[string]bool{}
 	}
-	var visit func(d string)
-	visit = func(d string) {
-		if r.protected[d] {
+	if r.followed == nil {
+		r.followed = map[string]bool{}
+	}
+	// A digest is protected whatever it was referenced as (the registry compares digests only), but it
+	// is looked INTO only where it is referenced as a manifest: a layer that happens to carry a
+	// manifest's bytes is a blob, and what those bytes mention is not referenced through it.
+	var visit func(d string, asManifest bool)
+	visit = func(d string, asManifest bool) {
+		r.protected[d] = true
+		if !asManifest || r.followed[d] {
 			return
 		}
-		r.protected[d] = true
+		r.followed[d] = true
 		// what the manifest references under the media type it has NOW, while reachable from a tag, is
 		// retained from now on (references it had under another type while no tag led to it are not)
 		if m, ok := r.manifests[d]; ok {
 			r.refsEver[d] = append(r.refsEver[d], m.refs...)
 		}
 		for _, ref := range r.refsEver[d] {
-			if ref.kind != 2 { // a subject may dangle and is not retained
-				visit(ref.digest)
-			}
+			switch ref.kind {
+			case 0:
+				visit(ref.digest, false)
+			case 1:
+				visit(ref.digest, true)
+			} // a subject may dangle and is not retained
 		}
 	}
 	for _, d := range r.tags {
-		visit(string(d.Digest))
+		visit(string(d.Digest), true)
 	}
 }
 
